@@ -85,10 +85,11 @@ ITER_KINDS = ["mru", "lru", "mrumut", "lrumut", "keys", "keyslru", "values", "va
 # weight profiles for the Cache-trait operations
 # ---------------------------------------------------------------------------------------------
 PROFILES = {
-    "put": dict(put=10, get=3, getmut=2, peek=1, peekmut=1, contains=1, remove=2, purge=0, sizes=1, census=1),
-    "get": dict(put=5, get=8, getmut=4, peek=1, peekmut=1, contains=1, remove=1, purge=0, sizes=1, census=1),
-    "churn": dict(put=6, get=3, getmut=1, peek=1, peekmut=1, contains=1, remove=5, purge=1, sizes=1, census=1),
-    "read": dict(put=5, get=2, getmut=1, peek=5, peekmut=4, contains=4, remove=1, purge=0, sizes=3, census=2),
+    "put": dict(put=10, get=3, getmut=2, peek=1, peekmut=1, contains=1, remove=2, purge=0, sizes=1, census=1, drain=0),
+    "get": dict(put=5, get=8, getmut=4, peek=1, peekmut=1, contains=1, remove=1, purge=0, sizes=1, census=1, drain=0),
+    "churn": dict(put=6, get=3, getmut=1, peek=1, peekmut=1, contains=1, remove=5, purge=1, sizes=1, census=1, drain=1),
+    "read": dict(put=5, get=2, getmut=1, peek=5, peekmut=4, contains=4, remove=1, purge=0, sizes=3, census=2, drain=0),
+    "ghost": dict(put=12, get=4, getmut=1, peek=0, peekmut=0, contains=0, remove=1, purge=0, sizes=1, census=1, drain=1),
 }
 
 
@@ -114,6 +115,15 @@ def common_op(r, name, U, vals, hot=None):
         return r.pick(["len", "cap", "isempty", "debug"])
     if name == "census":
         return "census %d" % U
+    if name == "drain":
+        # remove (almost) every resident key: reaches states where only ghost entries are left
+        ks = list(range(1, U + 1))
+        for i in range(len(ks) - 1, 0, -1):
+            j = r.below(i + 1)
+            ks[i], ks[j] = ks[j], ks[i]
+        if r.chance(1, 3) and ks:
+            ks = ks[1:]
+        return "\n".join("remove %d" % x for x in ks)
     raise ValueError(name)
 
 
@@ -154,7 +164,7 @@ def gen_rawlru(r, cid, nops, opts):
     for _ in range(nops):
         name = r.weighted(table)
         if name in PROFILES["put"]:
-            lines.append(common_op(r, name, U, vals, hot))
+            lines.extend(common_op(r, name, U, vals, hot).split("\n"))
         elif name == "resize":
             lines.append("resize %d" % r.weighted([(0, 1), (1, 2), (cap, 2), (r.rng(0, cap + 3), 5)]))
         elif name in ("getlru", "getmru", "peeklru", "peekmru", "removelru"):
@@ -218,7 +228,7 @@ def gen_slru(r, cid, nops, opts):
     for _ in range(nops):
         name = r.weighted(table)
         if name in PROFILES["put"]:
-            lines.append(common_op(r, name, U, vals, hot))
+            lines.extend(common_op(r, name, U, vals, hot).split("\n"))
         elif name == "putprotected":
             k = keypick(r, U, hot)
             lines.append("putprotected %d %d" % (k, vals.new(k)))
@@ -267,7 +277,7 @@ def gen_twoq(r, cid, nops, opts):
     for _ in range(nops):
         name = r.weighted(table)
         if name in PROFILES["put"]:
-            lines.append(common_op(r, name, U, vals, hot))
+            lines.extend(common_op(r, name, U, vals, hot).split("\n"))
         elif name == "listlen":
             lines.append(r.pick(["recentlen", "frequentlen", "ghostlen"]))
         elif name == "iter":
@@ -294,7 +304,7 @@ def gen_arc(r, cid, nops, opts):
     for _ in range(nops):
         name = r.weighted(table)
         if name in PROFILES["put"]:
-            lines.append(common_op(r, name, U, vals, hot))
+            lines.extend(common_op(r, name, U, vals, hot).split("\n"))
         elif name == "listlen":
             lines.append(r.pick(["partition", "recentlen", "frequentlen", "recentevictlen", "frequentevictlen"]))
         elif name == "iter":
@@ -335,7 +345,7 @@ def gen_wtinylfu(r, cid, nops, opts):
     for _ in range(nops):
         name = r.weighted(table)
         if name in PROFILES["put"]:
-            lines.append(common_op(r, name, U, vals, hot))
+            lines.extend(common_op(r, name, U, vals, hot).split("\n"))
         elif name == "wsizes":
             lines.append(r.pick(["windowlen", "windowcap", "mainlen", "maincap"]))
     lines.append("end")
